@@ -366,6 +366,20 @@ fn check_artifact<B: ocipkg::image::Image>(sig: &str, art: &mut Artifact<B>, lay
                     }
                 }
             }
+            // a part of a stored digest (its tail, its head, all but one digit) is not that digest
+            for part in [hex[hex.len() - 12..].to_string(), hex[..12].to_string(), hex[..hex.len() - 1].to_string()] {
+                if let Ok(alt) = Digest::new(&format!("sha256:{part}")) {
+                    let typed_ok = match layers.first().map(|l| l.kind()) {
+                        Some(0) => art.get_instance(&alt).is_ok(),
+                        Some(1) => art.get_parametric_instance(&alt).is_ok(),
+                        Some(2) => art.get_solution(&alt).is_ok(),
+                        _ => art.get_sample_set(&alt).is_ok(),
+                    };
+                    if art.get_layer(&alt).is_ok() || typed_ok {
+                        return fail(format!("{sig}/partial-digest-accepted"), format!("digest {alt} (a part of the digest of a stored layer) was accepted: {}", what()));
+                    }
+                }
+            }
         }
     }
     // list accessors
